@@ -9,14 +9,15 @@ def run(tier, seed, replay=None):
     c = dict(MaxHeaders=2, MaxTypes=2 if tier == "quick" else 3, MaxResults=1, EXPORT=True)
     r = vlib.tlc("FindAPI", ("c19.cfg", vlib.cfg_text(c, ["ModeAcceptable", "Unsupported400", "ExportCase"])), timeout=7000, tag="c19")
     ck.add_tlc("FindAPI", r, "Accept header lists (0..2 headers x 1..%d media types of 6 kinds) x preferJson x 7 path kinds x empty/non-empty result set" % c["MaxTypes"])
-    rep = vlib.run_harness(binary, ["c19", "-cases", os.path.join(r.workdir, "c19_cases.ndjson")], timeout=7000)
+    rep = vlib.run_harness(binary, ["c19", "-cases", os.path.join(r.workdir, "c19_cases.ndjson"), "-client-cases", os.path.join(r.workdir, "c19_client.ndjson")], timeout=7000)
     if rep.get("extra", {}).get("read_error") or rep["inconclusive"]:
         raise vlib.Infra("c19 harness: %s" % rep.get("extra"))
     ck.add_report(rep)
     ck.cov["rule"] = ("one raw HTTP request per TLC state against the real rwriter inside an HTTP handler of the usual shape (New, NewProviderResponseWriter, "
                       "WriteProviderResult*, Close, API error -> status): status, content type and framing (one JSON document / one complete result per line) "
                       "compared with the model, bodies decoded and compared with the 1..3 written results (nil / empty / binary context IDs and metadata, 0..2 "
-                      "addresses); the real find client queries the prefer-JSON handler for 0..3 results in 12 variants; API errors round-trip through "
+                      "addresses); the real find client queries the prefer-JSON handler for 0..3 results in 12 variants, and a stub server that gives every answer of the model's table "
+                      "(status 200/404/400/500 x whole document / cut short of its Content-Length / chunked and aborted / empty / not JSON / empty object): not-found without error only for 404 or a whole document without results; API errors round-trip through "
                       "EncodeError/DecodeError/FromResponse")
     ck.cov["exhaustive"] = True
     ck.assumptions += ["byte fields compared modulo nil/empty (JSON cannot tell them apart)", "client.Find sends no Accept header, so the round-trip law is stated for handlers created with WithPreferJson(true)"]
